@@ -16,6 +16,7 @@ import ODataVerif.Spec.Reroot
 import ODataVerif.Spec.Subst
 import ODataVerif.Spec.RefPrinter
 import ODataVerif.Model.Printer
+import ODataVerif.Model.PyVal
 open OQ OQ.Wire
 
 def encTok : Tok → String
@@ -80,6 +81,19 @@ def pairsOf : TreeList → List (Tree × Tree)
 def encTrace (ts : List Tree) : String :=
   " ".intercalate (ts.map (fun t => handlerName t ++ ":" ++ encTree t))
 
+def encPyValue : PyValue → String
+  | .none => "None"
+  | .int n => s!"int {n}"
+  | .bool b => if b then "bool True" else "bool False"
+  | .str s => "str " ++ encStr s
+  | .date y m d => s!"date {y} {m} {d}"
+  | .time h mi s us => s!"time {h} {mi} {s} {us}"
+  | .datetime y m d h mi s us off =>
+      s!"datetime {y} {m} {d} {h} {mi} {s} {us} " ++ (match off with | some o => s!"{o}" | none => "naive")
+  | .guid n => s!"guid {n}"
+  | .duration us => s!"duration {us}"
+  | .unmodelled => "unmodelled"
+
 def handle (args : List String) : String :=
   match args with
   | ["ping"] => "pong"
@@ -124,6 +138,10 @@ def handle (args : List String) : String :=
         let md := if mode == "full" then Spec.Mode.full else Spec.Mode.minimal
         hexOfString (String.ofList (Spec.render (Spec.printToks st md e))))
   | ["rtrender", w] => withExpr w (fun e => hexOfString (String.ofList (rtRender e)))
+  | ["pyval", k, h] =>
+      (match LitKind.ofClassName k, decStr h with
+       | some kind, some v => encOutcome encPyValue (pyVal kind v)
+       | _, _ => "bad-arg")
   | ["infer", w] => withExpr w (fun e => match inferType e with | some t => t.className | none => "None")
   | ["typeof", w] => withExpr w (fun e => encOTy (Spec.typeOf gamma e))
   | ["typecheck", w, allowed] =>
